@@ -139,6 +139,9 @@ def main(argv=None):
         print(f"KNOWN-FINDING: property={prop_id} {fid}: {known[fid]['what']} ({n} generated cases)")
     rc = 0
     outdir = os.path.join(HERE, "out", "replays", prop_id)
+    if os.path.isdir(outdir):  # replays of earlier runs would only confuse
+        for fn in os.listdir(outdir):
+            os.unlink(os.path.join(outdir, fn))
     for b, v in sorted(m["violations"].items()):
         os.makedirs(outdir, exist_ok=True)
         path = os.path.join(outdir, core.digest(b + json.dumps(v["case"], sort_keys=True, default=repr)) + ".json")
